@@ -122,7 +122,7 @@ class _BoolNF(ast.NodeTransformer):
 
 # ------------------------------------------------------------------------------------------------ N5-N7
 import os as _os
-_OPT = set(_os.environ.get("SA_NORMAL", "N5,N6,N7").split(","))
+_OPT = set(_os.environ.get("SA_NORMAL", "N5,N6,N7,N8").split(","))
 
 
 def _ends_in_jump(stmts):
@@ -146,9 +146,51 @@ class _ShapeNF(ast.NodeTransformer):
        N6  conditional value: if c: x = A  else: x = B   ->  x = A if c else B         (same plain target)
        N7  nested guards:     if a: (only) if b: X       ->  if a and b: X             (no else on either)"""
 
+    def _quantifier(self, s):
+        """N8  quantifier guards back to loops (exact: a generator expression is evaluated lazily, left to right):
+                 if not all(E for x in xs): <jump>   ->  for x in xs: if not E: <jump>
+                 if any(E for x in xs): <jump>       ->  for x in xs: if E: <jump>
+                 return any(E for x in xs)           ->  for x in xs: if E: return True ; return False
+                 return all(E for x in xs)           ->  for x in xs: if not E: return False ; return True"""
+        def gen(call, name):
+            if isinstance(call, ast.Call) and isinstance(call.func, ast.Name) and call.func.id == name and len(call.args) == 1 \
+                    and not call.keywords and isinstance(call.args[0], ast.GeneratorExp) and len(call.args[0].generators) == 1 \
+                    and not call.args[0].generators[0].is_async and isinstance(call.args[0].generators[0].target, ast.Name):
+                return call.args[0]
+            return None
+
+        def loop(g, test, body, at):
+            inner = ast.If(test=test, body=body, orelse=[])
+            for cond in reversed(g.generators[0].ifs):
+                inner = ast.If(test=cond, body=[inner], orelse=[])
+            f = ast.For(target=ast.Name(id=g.generators[0].target.id, ctx=ast.Store()), iter=g.generators[0].iter, body=[inner], orelse=[])
+            return ast.fix_missing_locations(ast.copy_location(f, at))
+        if isinstance(s, ast.If) and not s.orelse and _ends_in_jump(s.body):
+            t = s.test
+            if isinstance(t, ast.UnaryOp) and isinstance(t.op, ast.Not) and gen(t.operand, "all"):
+                g = gen(t.operand, "all")
+                return [loop(g, _BoolNF().visit(_negate(g.elt)), s.body, s)]
+            if gen(t, "any"):
+                g = gen(t, "any")
+                return [loop(g, g.elt, s.body, s)]
+        if isinstance(s, ast.Return) and s.value is not None:
+            for name, first, last in (("any", True, False), ("all", False, True)):
+                g = gen(s.value, name)
+                if g is not None:
+                    test = g.elt if name == "any" else _BoolNF().visit(_negate(g.elt))
+                    r1 = ast.copy_location(ast.Return(value=ast.Constant(value=first)), s)
+                    r2 = ast.copy_location(ast.Return(value=ast.Constant(value=last)), s)
+                    return [loop(g, test, [r1], s), ast.fix_missing_locations(r2)]
+        return None
+
     def _block(self, stmts, chain=False):
         out = []
         for s in stmts:
+            if "N8" in _OPT:
+                q = self._quantifier(s)
+                if q is not None:
+                    out.extend(q)
+                    continue
             if isinstance(s, ast.If):
                 s = self._if(s, chain)
                 if isinstance(s, list):
